@@ -226,9 +226,10 @@ class Cfg:
     sym_rtol: relative tolerance for symbolic / register arguments.
     """
 
-    def __init__(self, numbers="exact", rtol=1e-9, sym_rtol=1e-9, seed="cmp", array_dtype=True):
+    def __init__(self, numbers="exact", rtol=1e-9, sym_rtol=1e-9, seed="cmp", array_dtype=True, atol=0.0):
         self.numbers = numbers
         self.rtol = rtol
+        self.atol = atol
         self.sym_rtol = sym_rtol
         self.seed = seed
         self.array_dtype = array_dtype
@@ -253,11 +254,11 @@ def _num_equal_exact(a, b):
     )
 
 
-def _num_close(a, b, rtol):
+def _num_close(a, b, rtol, atol=0.0):
     if kind(a) == "bool" or kind(b) == "bool":
         return kind(a) == kind(b) and bool(a) == bool(b)
     za, zb = complex(a), complex(b)
-    return abs(za - zb) <= rtol * max(abs(za), abs(zb)) + 1e-300
+    return abs(za - zb) <= rtol * max(abs(za), abs(zb)) + atol + 1e-300
 
 
 def _points(names, seed, k):
@@ -311,10 +312,10 @@ def diff_values(a, b, path, cfg, out):
             elif ka in ("int", "bool"):
                 if int(a) != int(b):
                     out.append((path, "number:%s" % ka, show(a), show(b)))
-            elif not _num_close(a, b, cfg.rtol):
+            elif not _num_close(a, b, cfg.rtol, cfg.atol):
                 out.append((path, "number-ulps:%s" % ka, show(a), show(b)))
         else:
-            if not _num_close(a, b, cfg.rtol):
+            if not _num_close(a, b, cfg.rtol, cfg.atol):
                 out.append((path, "number-close:%s/%s" % (ka, kb), show(a), show(b)))
         return
     if ka != kb:
